@@ -89,6 +89,11 @@ func genSideCfg(rt *rapid.T, label string, o vfGenOpts) vfSideCfg {
 		c.FastRtxWnd = rapid.SampledFrom([]int{0, 2000, 10000}).Draw(rt, label+"_fastrtx")
 		c.CACwndStep = rapid.SampledFrom([]int{0, 100, 3000}).Draw(rt, label+"_castep")
 	}
+	if rapid.IntRange(0, 4).Draw(rt, label+"_rack") == 0 {
+		c.RackMinRTTWndMs = rapid.SampledFrom([]int{0, 100, 5000}).Draw(rt, label+"_rackwnd")
+		c.RackReoFloorMs = rapid.SampledFrom([]int{0, 1, 40, 300}).Draw(rt, label+"_rackfloor")
+		c.RackWCDelAckMs = rapid.SampledFrom([]int{0, 20, 500}).Draw(rt, label+"_rackdelack")
+	}
 	c.TSN = genTSN(rt, label+"_tsn", vfWindowFor(c.RBuf))
 	return c
 }
